@@ -833,7 +833,8 @@ def svd_norm_matfun(cx):
 
 @driver("C17", "autoblock", chunks=4, timeout=300,
         bound="Hermitian matrices that are block diagonal after a hidden random permutation: block-size lists with 1x1 blocks, zero "
-              "rows (kernel), a single full block, purely diagonal, up to d = 24; real and complex, float64 / float32 / complex128; "
+              "rows (kernel), a single full block, purely diagonal, up to d = 24; blocks dense or sparsely but connectedly coupled "
+              "(chain, star, random tree; some zero diagonal entries); real and complex, float64 / float32 / complex128; "
               "eigh / eigvalsh / eigvecsh with autoblock=True, sort both ways: spectrum == numpy.linalg.eigvalsh of the dense "
               "matrix, residual, orthonormality; non-Hermitian request must be rejected")
 def autoblock(cx):
@@ -845,6 +846,7 @@ def autoblock(cx):
         size_lists = size_lists[:8]
     for sizes, cplx, fn, sort, cont in itertools.product(size_lists, (False, True), ("eigh", "eigvalsh", "eigvecsh"), (True, False),
                                                          ("qarray", "ndarray")):
+        structure = ("dense", "chain", "sparse-connected", "star")[int(rng.integers(0, 4))]
         # a 0 in the list stands for a basis state that is not connected to anything and has a zero diagonal entry
         d = sum(max(s, 1) for s in sizes)
         A = np.zeros((d, d), dtype=complex if cplx else float)
@@ -854,7 +856,24 @@ def autoblock(cx):
                 o += 1
                 continue
             x = rng.normal(size=(s_, s_)) + (1j * rng.normal(size=(s_, s_)) if cplx else 0)
-            A[o:o + s_, o:o + s_] = (x + x.conj().T) / 2
+            blk = (x + x.conj().T) / 2
+            # sparse but connected coupling patterns: the sectors then have to be found by merging partial groups
+            mask = np.eye(s_, dtype=bool)
+            q_ = rng.permutation(s_)
+            if structure == "dense":
+                mask[:] = True
+            elif structure == "chain":
+                for a_ in range(s_ - 1):
+                    mask[q_[a_], q_[a_ + 1]] = mask[q_[a_ + 1], q_[a_]] = True
+            elif structure == "star":
+                mask[q_[0], :] = mask[:, q_[0]] = True
+            else:
+                for a_ in range(1, s_):
+                    b_ = q_[int(rng.integers(0, a_))]
+                    mask[q_[a_], b_] = mask[b_, q_[a_]] = True
+            blk = np.where(mask, blk, 0)
+            blk[np.diag_indices(s_)] = np.where(rng.random(s_) < 0.3, 0.0, np.real(np.diag(blk)))
+            A[o:o + s_, o:o + s_] = blk
             o += s_
         p = rng.permutation(d)
         A = A[np.ix_(p, p)]
@@ -895,7 +914,8 @@ def autoblock(cx):
                     return "eigenvectors not orthonormal"
 
         cx.check("autoblock=True gives the same spectrum / eigenpairs as the direct dense computation",
-                 dict(sizes=sizes, complex=cplx, fn=fn, return_vecs=fn != "eigvalsh", sort=sort, rep=cont, dtype=dt), t,
+                 dict(sizes=sizes, complex=cplx, fn=fn, return_vecs=fn != "eigvalsh", sort=sort, rep=cont, dtype=dt,
+                      structure=structure), t,
                  nontrivial=d > 1)
     for cplx in (False, True):
         if not cx.mine():
